@@ -1517,6 +1517,15 @@ func (w *pw) laterMessage() {
 		return
 	}
 	c.Logf("later message L publisher=%d len=%d local_index=%d", m.pubPos, len(m.msg), m.localIdx)
+	if w.everStarted[m.key] {
+		// The later message happens to carry a routing key (committee, publisher, root, nonce) that a FORGED
+		// unit delivered earlier had made up (same root because the bodies are equal, nonce hit by the
+		// corruption): that subprocessor ended on its invalid first unit and the key sits in the finalized
+		// cache until it expires. Ignoring the message then is the documented behaviour of the cache
+		// (DESIGN section 14.3, observations), not a failure to process a later message. Not judged.
+		c.Probe("later_message_key_already_used_by_a_forged_unit_not_judged")
+		return
+	}
 	total := m.d + m.p
 	// the first delivery is dropped at spawn time: shard 0 goes out twice, up front (runs that keep shard 0)
 	// or once more at the end
